@@ -266,6 +266,12 @@ func Itoa(i int) string { return strconv.Itoa(i) }
 // Fail records a violation.  Scheduler goroutine only (from Pred/Act/Post
 // closures or between Run calls); tasks use Report.
 func (k *Kernel) Fail(class, site, msg string) {
+	if k.aborting {
+		// The run is over and its tasks are being torn down (each one ends
+		// with runtime.Goexit at its yield): what they report on the way out
+		// says nothing about the code under test.
+		return
+	}
 	if k.Violation == nil {
 		k.Violation = &Violation{Class: class, Site: site, Msg: msg}
 		k.Logf("VIOLATION ", class, "@", site)
